@@ -433,9 +433,9 @@ def _enum(case):
         if traces0 is None:
             traces0 = tk
         elif tk != traces0:
-            r = next(i for i in range(P) if tk[i] != traces0[i])
-            return result(VIOL, cls=[what], events=ev, key="C06:trace-depends-on-arrival-order/%s" % case["work"],
-                          what="%s: rank %d issues a different sequence of collectives under arrival choices %r" % (what, r, choices), witness={"case": case, "choices": list(choices)}, n_eval=n_runs)
+            # every run is judged by the matcher on its own; a sequence that varies with the arrival order but always matches is
+            # not a violation of the property -- it is only counted (and makes the "all orders explored" claim weaker)
+            ev["runs_whose_trace_differs_from_first_order"] = ev.get("runs_whose_trace_differs_from_first_order", 0) + 1
         sigs.add(hash(w.arrival_signature()))
         # next schedule in depth-first order
         log = list(w.choice_log)
@@ -509,9 +509,7 @@ def _random(case):
             if traces0 is None:
                 traces0 = tk
             elif tk != traces0:
-                r = next(i for i in range(P) if tk[i] != traces0[i])
-                return result(VIOL, cls=[what], events=ev, key="C06:trace-depends-on-arrival-order/%s" % work,
-                              what="%s: rank %d issues a different sequence of collectives under schedule %s/%d" % (what, r, sched, case["seed"] + s), witness={"case": case})
+                ev["runs_whose_trace_differs_from_first_order"] = ev.get("runs_whose_trace_differs_from_first_order", 0) + 1
             sigs.add(hash(w.arrival_signature()))
         return result(HELD, cls=[what], events=ev, n_eval=case["nseeds"], sched=["%s:%d" % (what, x) for x in sigs])
     finally:
